@@ -88,6 +88,10 @@ func queryText(op Op) string {
 		return fmt.Sprintf(`name = "%s"`, op.Name)
 	case 2:
 		return fmt.Sprintf(`anyOf(roles) = "%s" sort by name skip 1 limit 3`, op.Name)
+	case 3:
+		return fmt.Sprintf(`anyOf(mentees.name) = "%s"`, op.Name)
+	case 4:
+		return fmt.Sprintf(`dept.name = "%s"`, op.Name)
 	}
 	return ""
 }
@@ -217,6 +221,26 @@ func modelRead(m *Model, op Op) string {
 				}
 			}
 			return fmt.Sprintf("%s#%d", strings.Join(ids, ","), len(match))
+		case 3:
+			// people one of whose mentees is called op.Name
+			var ids []string
+			for _, id := range listed {
+				for _, q := range m.People {
+					if q.Mentor != nil && *q.Mentor == id && q.Name == op.Name {
+						ids = append(ids, id)
+						break
+					}
+				}
+			}
+			return fmt.Sprintf("%s#%d", strings.Join(ids, ","), len(ids))
+		case 4:
+			var ids []string
+			for _, id := range listed {
+				if dn, ok := m.Depts[m.People[id].Dept]; ok && dn == op.Name {
+					ids = append(ids, id)
+				}
+			}
+			return fmt.Sprintf("%s#%d", strings.Join(ids, ","), len(ids))
 		}
 		return fmt.Sprintf("%s#%d", strings.Join(listed, ","), len(listed))
 	case "iterate":
@@ -265,7 +289,7 @@ func (r *Run) execViewTx(t *Task, idx int, tx *TxPlan) {
 		for i, op := range tx.Ops {
 			t.Yield("view.step", NeedNone)
 			// no harness lock between the wake-up and the library call (race windows)
-			got, err := evalRead(r.st, btx, op)
+			got, err := safeRead(r.st, btx, op)
 			r.mu.Lock()
 			if r.committedNonce != expNonce {
 				spanned = true
@@ -342,10 +366,18 @@ func (g *gen) genReads(n int) []Op {
 			}
 		case 6, 7:
 			op = Op{K: "query", S: pick(g.r, []string{StPeople, StPeople, StStaff, StPX}), N: g.r.IntN(3)}
-			if op.N == 1 {
+			if g.cfg.Profile == "conc" {
+				// plus two composite-symbol shapes the existing suite pins (linked set . field, fk . field): every
+				// evaluation builds the symbol chain anew, which is where shared evaluation state would show
+				op.N = g.r.IntN(5)
+			}
+			switch op.N {
+			case 1, 3:
 				op.Name = pick(g.r, U.Names)
-			} else if op.N == 2 {
+			case 2:
 				op.Name = pick(g.r, U.Roles)
+			case 4:
+				op.Name = pick(g.r, U.DeptNames)
 			}
 		case 8:
 			op = Op{K: "iterate", S: pick(g.r, []string{StPeople, StStaff, StPX})}
@@ -363,4 +395,18 @@ func (g *gen) universeOf(store string) []string {
 		return g.groups()
 	}
 	return U.ByStore()[store]
+}
+
+// safeRead turns a panic raised by the library on a read path into an error.
+func safeRead(s *Stores, tx *bbolt.Tx, op Op) (res string, err error) {
+	defer func() {
+		if p := recover(); p != nil {
+			switch p.(type) {
+			case abortSig, injectedPanic:
+				panic(p)
+			}
+			err = fmt.Errorf("panic: %v", p)
+		}
+	}()
+	return evalRead(s, tx, op)
 }
